@@ -153,6 +153,12 @@ theorem chain_ops_deadlock_free (threads : List (List String))
     simp only [Option.getD_some]
     exact table_respects_order (n, evs) (lookup_mem hl)
 
+/-- The executable enabledness test used by the driver (`conc sim`, `conc selftest`) decides the
+`Enabled` relation of the transition system under strict writer preference. -/
+theorem driver_scheduler_is_model (s : State Lock) (i : Nat) :
+    enabledB s i = true ↔ Enabled strictWP s i :=
+  enabledB_iff s i
+
 /-! non-vacuity: the model can deadlock when the discipline is broken -/
 
 /-- two threads taking `hp`/`ts` in opposite orders reach a deadlocked state -/
